@@ -1,6 +1,15 @@
 """C07 - every covariance handed out is a valid covariance.
-Spec: Validity.tla (data-growth machine over exact rationals: PSD prior / posterior / reduction, monotone variances)."""
+Spec: Validity.tla
+  part "growth"  - data-growth machine over exact rationals: WHAT is observed (pool point + own noise level) x HOW it is added
+                   (fresh model, set_train_data, get_fantasy_model incl. fantasies of fantasies, IndependentModelList) x the
+                   likelihood's NOISE STRUCTURE (homoskedastic, fixed, fixed + learned, input dependent), with the noise
+                   bookkeeping in code shape; invariants after every step: noise of an observation is its own, PSD prior /
+                   posterior / prior - posterior / cov(before) - cov(after), monotone variances;
+  part "lattice" - kernel family x discrete constructor argument x input dimension 1..5 x ARD x lengthscale scale x geometry
+                   class (incl. dense clouds and grids that make indefiniteness visible), the Wendland exponent rule of the
+                   compact-support kernels with the documented function evaluated exactly at rational radii."""
 import itertools
+import math
 import os
 import random
 
@@ -9,75 +18,135 @@ from checks.c04 import tla
 
 LEVEL = "exploration"
 PID = "C07"
+PROCS = min(6, core.NPROC)          # shared machine: at most 6 worker processes
+ALL_LIKS = ["homo", "fixed", "fixed+learned", "hetero"]
+ALL_HOWS = ["fresh", "set", "fantasy", "listfantasy"]
+EXACT_HOWS = ["fresh", "fantasy"]   # one representative per bookkeeping class (replace / append), see Validity.tla
+LEVELS = [[1, 1], [3, 1]]           # the spec's fixed-noise levels (rationals n/d)
+GROWTH_INV = ["NoiseIsOwn", "NoiseFloor", "PriorPSD", "PosteriorPSD", "ReductionPSD", "VarNonNegative"]
+# real counterparts of the spec's noise parameters: fixed levels, the learned (second) noise, the homoskedastic noise
+LV = {1: 0.02, 2: 0.4}
+S2_REAL = 0.25
+HOMO = 0.05
+DIFF_TOL = 1e-6      # relative to the prior scale, for differences of covariances / variances along a history
+# likelihood classes that realise each noise structure of the spec
+VARIANTS = {"homo": ["gaussian", "missingobs", "mtask"], "fixed": ["fixed"], "fixed+learned": ["fixed+learned"], "hetero": ["hetero"]}
 
 
-def write_mc(workdir, name, pool, test, s2, maxn):
+def write_mc(workdir, name, part, pool=(), test=(), s2=1, maxn=3, liks=("homo",), hows=("fresh",), maxchunk=1, arith=True,
+             scales=(0,), maxdim=5, modes=("exact",), invariants=(), properties=()):
     os.makedirs(workdir, exist_ok=True)
     mod = "MC_Validity_" + name
+    sset = lambda xs: "{" + ", ".join(tla(x) for x in xs) + "}"
     with open(os.path.join(workdir, mod + ".tla"), "w") as f:
-        f.write("---- MODULE %s ----\nEXTENDS Validity\nPoolDef == %s\nTestDef == %s\n====\n" % (mod, tla(pool), tla(test)))
+        f.write("---- MODULE %s ----\nEXTENDS Validity\nPoolDef == %s\nTestDef == %s\nLevelsDef == %s\nLiksDef == %s\nHowsDef == %s\nScalesDef == %s\nModesDef == %s\n====\n" % (
+            mod, tla(pool), tla(test), tla(LEVELS), sset(liks), sset(hows), sset(scales), sset(modes)))
     cfg = os.path.join(workdir, mod + ".cfg")
-    tlc.write_cfg(cfg, spec="Spec", constants={"Pool": "<- PoolDef", "Test": "<- TestDef", "S2": s2, "MaxN": maxn},
-                  invariants=["PriorPSD", "PosteriorPSD", "ReductionPSD", "VarNonNegative"], properties=["VarianceMonotone"])
+    tlc.write_cfg(cfg, spec="Spec", constants={"Part": part, "Pool": "<- PoolDef", "Test": "<- TestDef", "S2": s2, "Levels": "<- LevelsDef",
+                                               "Liks": "<- LiksDef", "Hows": "<- HowsDef", "Modes": "<- ModesDef", "MaxChunk": maxchunk, "Arith": bool(arith), "MaxN": maxn,
+                                               "MaxDim": maxdim, "Scales": "<- ScalesDef"},
+                  invariants=list(invariants), properties=list(properties))
     return os.path.join(workdir, mod + ".tla"), cfg
 
 
 # ---------------------------------------------------------------------------------------------
-def kernels(torch, gpytorch, d):
-    """kernels that are positive definite on their documented domain, with that domain"""
+def families(torch, gpytorch):
+    """builders of the kernel families of Validity.tla (Families): name -> f(arg, d, ard); the spec holds the argument values,
+    ARD capability, documented domain and translation invariance"""
     K = gpytorch.kernels
-    out = {
-        "rbf": (lambda: K.RBFKernel(), "any"),
-        "rbf_ard": (lambda: K.RBFKernel(ard_num_dims=d), "any"),
-        "matern05": (lambda: K.MaternKernel(nu=0.5), "any"),
-        "matern15": (lambda: K.MaternKernel(nu=1.5), "any"),
-        "matern25": (lambda: K.MaternKernel(nu=2.5), "any"),
-        "rq": (lambda: K.RQKernel(), "any"),
-        "periodic": (lambda: K.PeriodicKernel(), "any"),
-        "linear": (lambda: K.LinearKernel(), "any"),
-        "poly2": (lambda: K.PolynomialKernel(power=2), "any"),
-        "pwpoly": (lambda: K.PiecewisePolynomialKernel(q=2), "any"),
-        "cosine": (lambda: K.CosineKernel(), "d1"),
-        "scale_rbf": (lambda: K.ScaleKernel(K.RBFKernel()), "any"),
-        "sum": (lambda: K.RBFKernel() + K.ScaleKernel(K.MaternKernel(nu=1.5)), "any"),
-        "prod": (lambda: K.RBFKernel() * K.PeriodicKernel(), "any"),
-        "sm": (lambda: K.SpectralMixtureKernel(num_mixtures=2, ard_num_dims=d), "any"),
-        "cylindrical": (lambda: K.CylindricalKernel(num_angular_weights=3, radial_base_kernel=K.MaternKernel(nu=2.5)), "unitball"),
-        "rff": (lambda: K.RFFKernel(num_samples=8, num_dims=d), "any"),
-        "constant": (lambda: K.ConstantKernel(), "any"),
+    D = torch.float64
+
+    def A(d, ard):
+        return dict(ard_num_dims=d) if ard else {}
+    return {
+        "rbf": lambda a, d, ard: K.RBFKernel(**A(d, ard)),
+        "matern": lambda a, d, ard: K.MaternKernel(nu=a / 2.0, **A(d, ard)),
+        "rq": lambda a, d, ard: K.RQKernel(**A(d, ard)),
+        "periodic": lambda a, d, ard: K.PeriodicKernel(**A(d, ard)),
+        "cosine": lambda a, d, ard: K.CosineKernel(),
+        "linear": lambda a, d, ard: K.LinearKernel(**A(d, ard)),
+        "poly": lambda a, d, ard: K.PolynomialKernel(power=a),
+        "pwpoly": lambda a, d, ard: K.PiecewisePolynomialKernel(q=a, **A(d, ard)),
+        "sm": lambda a, d, ard: K.SpectralMixtureKernel(num_mixtures=a, ard_num_dims=d),
+        "sdelta": lambda a, d, ard: K.SpectralDeltaKernel(num_dims=d, num_deltas=a),
+        "cylindrical": lambda a, d, ard: K.CylindricalKernel(num_angular_weights=a, radial_base_kernel=K.MaternKernel(nu=2.5)),
+        "rff": lambda a, d, ard: K.RFFKernel(num_samples=a, num_dims=d),
+        "constant": lambda a, d, ard: K.ConstantKernel(),
+        "arc": lambda a, d, ard: K.ArcKernel(K.MaternKernel(nu=2.5), **A(d, ard)),
+        "hamming": lambda a, d, ard: K.HammingIMQKernel(vocab_size=a),
+        "scale": lambda a, d, ard: K.ScaleKernel(K.RBFKernel(**A(d, ard))),
+        "sum": lambda a, d, ard: K.RBFKernel(**A(d, ard)) + K.ScaleKernel(K.MaternKernel(nu=1.5)),
+        "prod": lambda a, d, ard: K.RBFKernel(**A(d, ard)) * K.PeriodicKernel(),
+        "addstruct": lambda a, d, ard: K.AdditiveStructureKernel(K.RBFKernel(), num_dims=d),
+        "prodstruct": lambda a, d, ard: K.ProductStructureKernel(K.MaternKernel(nu=1.5), num_dims=d),
+        "newton": lambda a, d, ard: K.NewtonGirardAdditiveKernel(K.RBFKernel(), num_dims=d, max_degree=min(a, d)),
+        "rbfgrad": lambda a, d, ard: K.RBFKernelGrad(**A(d, ard)),
+        "rbfgradgrad": lambda a, d, ard: K.RBFKernelGradGrad(**A(d, ard)),
+        "matern52grad": lambda a, d, ard: K.Matern52KernelGrad(**A(d, ard)),
+        "polygrad": lambda a, d, ard: K.PolynomialKernelGrad(power=a),
+        "multitask": lambda a, d, ard: K.MultitaskKernel(K.RBFKernel(), num_tasks=2, rank=a),
+        "lcm": lambda a, d, ard: K.LCMKernel([K.RBFKernel(), K.MaternKernel(nu=1.5)], num_tasks=2, rank=a),
+        "gridinterp": lambda a, d, ard: K.GridInterpolationKernel(K.RBFKernel(), grid_size=8, num_dims=d, grid_bounds=[(-1.2, 1.2)] * d),
+        "inducing": lambda a, d, ard: K.InducingPointKernel(K.RBFKernel(**A(d, ard)), inducing_points=torch.linspace(-1, 1, 4, dtype=D).unsqueeze(-1).repeat(1, d),
+                                                           likelihood=gpytorch.likelihoods.GaussianLikelihood()),
     }
-    return out
 
 
-# translation-invariant kernels: only these are exercised on inputs with a large common offset (for the others the prior itself
-# grows with the offset and rounding is relative to that scale)
-STATIONARY = {"rbf", "rbf_ard", "matern05", "matern15", "matern25", "rq", "periodic", "pwpoly", "cosine", "scale_rbf", "sum", "prod", "sm"}
+def outputs_per_point(fam, d):
+    return {"rbfgrad": d + 1, "matern52grad": d + 1, "polygrad": d + 1, "rbfgradgrad": 2 * d + 1, "multitask": 2, "lcm": 2}.get(fam, 1)
+
+
+# kernels walked along the growth histories: (family, argument, ARD); single-output kernels only
+GROWTH_KERNELS = [("rbf", 0, False), ("rbf", 0, True), ("matern", 1, False), ("matern", 3, False), ("matern", 5, True), ("rq", 0, False),
+                  ("periodic", 0, False), ("linear", 0, False), ("poly", 2, False), ("pwpoly", 0, False), ("pwpoly", 2, True), ("cosine", 0, False),
+                  ("scale", 0, False), ("sum", 0, False), ("prod", 0, False), ("sm", 2, False), ("cylindrical", 3, False), ("rff", 8, False),
+                  ("arc", 0, False)]
+STATIONARY = {"rbf", "matern", "rq", "periodic", "pwpoly", "cosine", "scale", "sum", "prod", "sm", "sdelta"}
+NO_FANTASY = {"rff"}     # "Fantasy observation updates not yet supported for models using RFFs" (documented NotImplementedError)
+DOMAIN = {"cosine": "d1", "cylindrical": "unitball", "hamming": "onehot", "gridinterp": "box3"}
 
 
 def geometry(torch, name, n, d, g):
     D = torch.float64
+    x = torch.rand(n, d, generator=g, dtype=D) * 2 - 1
     if name == "spread":
-        return torch.rand(n, d, generator=g, dtype=D) * 2 - 1
+        return x
     if name == "duplicates":
-        x = torch.rand(n, d, generator=g, dtype=D) * 2 - 1
         x[1] = x[0]
         x[-1] = x[2]
         return x
     if name == "near-coincident":
-        x = torch.rand(n, d, generator=g, dtype=D) * 2 - 1
         x[1] = x[0] + 1e-9
         x[3] = x[2] - 1e-9
         return x
     if name == "clustered":
-        c = torch.rand(1, d, generator=g, dtype=D) * 2 - 1
-        return c + 1e-3 * torch.randn(n, d, generator=g, dtype=D)
+        return x[:1] + 1e-3 * torch.randn(n, d, generator=g, dtype=D)
     if name == "far-offset":
         # un-normalised coordinates (raw timestamps ...): a large common offset, spread + clustered + one exact duplicate
-        x = torch.rand(n, d, generator=g, dtype=D) * 2 - 1
         x[1] = x[0] + 1e-3 * torch.randn(d, generator=g, dtype=D)
         x[2] = x[0]
         return x + 1e5
+    if name == "dense":
+        # many points per unit volume (box of width 1.6) with exact duplicates and rows 1e-9 apart
+        x = x * 0.8
+        k = max(1, min(5, n // 4))
+        x[-k:] = x[:k].clone()
+        x[-2 * k:-k] = x[k:2 * k].clone() + 1e-9
+        return x
+    if name == "grid":
+        m = max(2, int(round(n ** (1.0 / d))))
+        ax = torch.linspace(-0.8, 0.8, m, dtype=D)
+        return torch.cartesian_prod(*([ax] * d)).reshape(-1, d)
     raise ValueError(name)
+
+
+def set_lengthscales(torch, kern, ls):
+    """every lengthscale gets the scale `ls`; the entries of an ARD lengthscale are pairwise distinct"""
+    with torch.no_grad():
+        for _, mod in kern.named_modules():
+            if getattr(mod, "has_lengthscale", False):
+                k = mod.lengthscale.shape[-1]
+                mod.lengthscale = (mod.lengthscale * 0 + ls) * (1 + 0.3 * torch.arange(k, dtype=mod.lengthscale.dtype))
 
 
 def psd_report(torch, M, what, tol=1e-8, ref=None):
@@ -87,7 +156,7 @@ def psd_report(torch, M, what, tol=1e-8, ref=None):
     if not torch.isfinite(M).all():
         return "%s has non-finite entries" % what
     asym = float((M - M.transpose(-1, -2)).abs().max())
-    scale = max(float(M.abs().max()), 1e-300)
+    scale = max(float(M.abs().max()), float(ref or 0.0), 1e-300)
     if asym > 1e-10 * scale:
         return "%s is not symmetric (max asymmetry %.3e, scale %.3e)" % (what, asym, scale)
     ev = torch.linalg.eigvalsh((M + M.transpose(-1, -2)) / 2)
@@ -102,95 +171,277 @@ def psd_report(torch, M, what, tol=1e-8, ref=None):
 def _worker(item):
     torch = core.setup_torch()
     import gpytorch
-    out = []
+    out, cache = [], {}
     for c in item["cases"]:
-        out.extend(run_case(torch, gpytorch, c))
+        out.extend(run_case(torch, gpytorch, c, cache))
     return out
 
 
-def run_case(torch, gpytorch, c):
-    from gpytorch import settings
+def run_case(torch, gpytorch, c, cache=None):
+    if c["what"] == "gram":
+        return run_gram(torch, gpytorch, c, cache)
+    return run_chain(torch, gpytorch, c)
+
+
+def in_domain(torch, dom, x):
+    if dom == "unitball":
+        return x / (1.01 * max(1.0, float(x.norm(dim=-1).max())))
+    if dom == "box3":
+        return x / max(1.0, float(x.abs().max()))
+    return x
+
+
+def kname(fam, arg, ard):
+    return "%s%s%s" % (fam, "[%d]" % arg if (arg or fam == "pwpoly") else "", "-ard" if ard else "")
+
+
+# ---------------------------------------------------------------------------------------------
+def run_gram(torch, gpytorch, c, cache=None):
+    """one cell of the kernel lattice of Validity.tla: the Gram matrix on its geometry is symmetric PSD; compact-support
+    cells: the kernel is the documented function with the exponent the spec requires (exact values from TLC)"""
     D = torch.float64
+    fam, arg, d, ard, geom, dom = c["fam"], c["arg"], c["d"], c["ard"], c["geom"], c["dom"]
+    ls = 10.0 ** c["ls"]
+    name = kname(fam, arg, ard)
+    desc = "%s geometry=%s lengthscale-scale=%g d=%d" % (name, geom, ls, d)
     g = torch.Generator().manual_seed(c["seed"])
-    d = c["d"]
-    kname, geom, ls = c["kernel"], c["geometry"], c["lengthscale"]
-    ks = kernels(torch, gpytorch, d)
-    mk, dom = ks[kname]
-    desc = "%s geometry=%s lengthscale-scale=%g d=%d" % (kname, geom, ls, d)
     res = []
 
-    def rec(what, bad):
-        res.append(dict(key=[kname, geom, ls, d, what], ok=bad is None, nontrivial=True, sig="C07/%s/%s/%s" % (what, kname, geom),
-                        detail="%s: %s" % (desc, bad), case=c, sample=dict(case=desc) if what == "gram" else None))
-    torch.manual_seed(c["seed"])
-    kern = mk().to(D)
-    with torch.no_grad():
-        for n_, mod in kern.named_modules():
-            if hasattr(mod, "raw_lengthscale") and mod.has_lengthscale:
-                mod.lengthscale = mod.lengthscale * 0 + ls
-    n = 7
-    x = geometry(torch, geom, n, d, g)
-    xs = torch.rand(3, d, generator=g, dtype=D) * 2 - 1
-    if geom == "far-offset":
-        xs = xs + 1e5
-    if dom == "unitball":
-        x = x / (1.01 * max(1.0, float(x.norm(dim=-1).max())))
-        xs = xs / (1.01 * max(1.0, float(xs.norm(dim=-1).max())))
-    if c["what"] == "gram":
-        with torch.no_grad():
-            ok, Kd = core.guarded(lambda: kern(torch.cat([x, xs])).to_dense())
+    def rec(what, bad, sample=False, sig=None):
+        r = dict(key=[name, geom, c["ls"], d, what], ok=bad is None, nontrivial=True, sig=sig or "C07/%s/%s/%s" % (what, name, geom),
+                 detail="%s: %s" % (desc, bad), case=c)
+        if sample:
+            r["sample"] = dict(case=desc)
+        res.append(r)
+    key = (fam, arg, d, ard, c["kseed"])
+    if cache is not None and key in cache:       # the cells of one kernel configuration share the kernel object (same seed)
+        kern = cache[key]
+    else:
+        torch.manual_seed(c["kseed"])
+        ok, kern = core.guarded(lambda: families(torch, gpytorch)[fam](arg, d, ard).to(D))
         if not ok:
-            rec("gram-raises", Kd)
+            rec("gram-raises", "constructor: %s" % kern)
             return res
-        rec("gram", psd_report(torch, Kd, "Gram matrix K(x,x)"))
+        if cache is not None:
+            cache.clear()
+            cache[key] = kern
+    set_lengthscales(torch, kern, ls)
+    outs = outputs_per_point(fam, d)
+    n = max(4, c["n"] // outs) if geom in ("dense", "grid") else max(4, 10 // (1 if outs <= 2 else outs))
+    if dom == "onehot":
+        # fixed-length sequences (length d) over a vocabulary of size arg, one-hot encoded and flattened
+        cat = torch.randint(0, arg, (n, d), generator=g)
+        if geom != "spread":
+            cat[1] = cat[0]
+            cat[-1] = cat[2]
+        x = torch.nn.functional.one_hot(cat, arg).reshape(n, -1).to(D)
+    else:
+        x = geometry(torch, geom, n, d, g)
+        if geom in ("dense", "grid"):
+            x = x * ls           # the point density is relative to the lengthscale (support radius); the spec gives these cells scale 0
+        x = in_domain(torch, dom, x)
+    with torch.no_grad():
+        ok, Kd = core.guarded(lambda: kern(x).to_dense())
+    if not ok:
+        rec("gram-raises", Kd)
         return res
-    # growth history on an exact GP: pool index sequence from the spec
+    rec("gram", psd_report(torch, Kd, "Gram matrix K(x,x) of %d points" % x.shape[0]), sample=True)
+    if fam == "pwpoly" and geom == "dense" and c.get("phi"):
+        # PD certificate: with j = floor(d/2) + q + 1 the documented function is positive definite in R^d; the kernel must BE
+        # that function (a smaller exponent is indefinite in R^d although sampled Gram matrices look fine for q >= 2)
+        lsv = kern.lengthscale.detach().reshape(-1)
+        lsv = lsv.expand(d) if lsv.numel() == 1 else lsv
+        worst = None
+        for (a, b), (pn, pd) in zip(c["radii"], c["phi"]):
+            x1 = torch.zeros(1, d, dtype=D)
+            x2 = (lsv * (a / b) / math.sqrt(d)).reshape(1, d)
+            with torch.no_grad():
+                ok, v = core.guarded(lambda: float(kern(x1, x2).to_dense()))
+            if not ok:
+                worst = "raised %s" % v
+                break
+            if abs(v - pn / pd) > 1e-12:
+                worst = "k(r = %d/%d) = %.15g but the documented function with j = floor(%d/2) + %d + 1 = %d is %d/%d = %.15g" % (a, b, v, d, arg, c["j"], pn, pd, pn / pd)
+                break
+        rec("support", worst, sig="C07/support/%s/d%d" % (name, d))
+    return res
+
+
+# ---------------------------------------------------------------------------------------------
+def hetero_noise_model(torch, gpytorch, x):
+    """noise as a function of the input: a small GP through the level of every pool row (HLevel of the spec)"""
+    D = torch.float64
     lik = gpytorch.likelihoods.GaussianLikelihood().to(D)
 
-    class M(gpytorch.models.ExactGP):
-        def __init__(s_, xx, yy):
-            super().__init__(xx, yy, lik)
-            s_.mean_module = gpytorch.means.ZeroMean()
-            s_.covar_module = kern
+    class NM(gpytorch.models.ExactGP):
+        def __init__(s_):
+            lv = torch.tensor([LV[(r % len(LV)) + 1] for r in range(x.shape[0])], dtype=D)
+            super().__init__(x, torch.log(torch.expm1(lv)), lik)
+            s_.mean_module = gpytorch.means.ConstantMean()
+            s_.covar_module = gpytorch.kernels.RBFKernel()
 
         def forward(s_, xx):
             return gpytorch.distributions.MultivariateNormal(s_.mean_module(xx), s_.covar_module(xx))
+    nm = NM().to(D)
     with torch.no_grad():
         lik.noise = 0.05
-    yall = torch.randn(n, generator=g, dtype=D)
+        nm.covar_module.lengthscale = 0.5
+        nm.mean_module.constant = math.log(math.expm1(0.1))
+    nm.eval()
+    return nm
+
+
+def make_lik(torch, gpytorch, variant, noise, nm):
+    L = gpytorch.likelihoods
+    D = torch.float64
+    if variant == "gaussian":
+        lik = L.GaussianLikelihood()
+    elif variant == "missingobs":
+        lik = L.GaussianLikelihoodWithMissingObs()
+    elif variant == "mtask":
+        lik = L.MultitaskGaussianLikelihood(num_tasks=2)
+    elif variant == "fixed":
+        lik = L.FixedNoiseGaussianLikelihood(noise=noise.clone())
+    elif variant == "fixed+learned":
+        lik = L.FixedNoiseGaussianLikelihood(noise=noise.clone(), learn_additional_noise=True)
+    elif variant == "hetero":
+        from gpytorch.likelihoods.gaussian_likelihood import _GaussianLikelihoodBase
+        from gpytorch.likelihoods.noise_models import HeteroskedasticNoise
+        lik = _GaussianLikelihoodBase(noise_covar=HeteroskedasticNoise(nm))
+    else:
+        raise core.Machinery("unknown likelihood variant %r" % variant)
+    lik = lik.to(D)
     with torch.no_grad():
-        prior = kern(xs).to_dense()
-    rec("prior", psd_report(torch, prior, "prior covariance"))
-    prev_var = torch.diagonal(prior).clone()
-    seq = c["history"]
-    for step in range(1, len(seq) + 1):
-        idx = torch.tensor([p - 1 for p in seq[:step]])
-        model = M(x[idx], yall[idx]).to(D)
+        if variant in ("gaussian", "missingobs", "mtask"):
+            lik.noise = HOMO
+        if variant == "fixed+learned":
+            lik.second_noise = S2_REAL
+    return lik
+
+
+def run_chain(torch, gpytorch, c):
+    """one growth history of Validity.tla walked on a real exact GP: after EVERY step the posterior covariance is PSD,
+    prior - posterior and cov(before) - cov(after) are PSD, no variance increased, the marginal is PSD, variances >= floor"""
+    from gpytorch import settings
+    D = torch.float64
+    fam, arg, ard = c["kernel"]
+    geom, d, lik_kind, variant = c["geometry"], c["d"], c["lik"], c["variant"]
+    obs, hist, fast = c["obs"], c["hist"], c.get("mode") == "fast"
+    name = kname(fam, arg, ard)
+    dom = DOMAIN.get(fam, "any")
+    fixedkind = lik_kind in ("fixed", "fixed+learned")
+    mt = variant == "mtask"
+    hows = "+".join("%s%d" % (h, m) for h, m in hist)
+    desc = "%s geometry=%s d=%d likelihood=%s%s obs=%s history=%s" % (name, geom, d, variant, " fast_pred_var" if fast else "", obs, hows)
+    res = []
+
+    def rec(what, bad, step=0):
+        res.append(dict(key=[name, geom, variant, fast, repr(obs), hows, step, what], ok=bad is None, nontrivial=True,
+                        sig="C07/%s/%s/%s" % (what, variant, "+".join(sorted(set(h for h, _ in hist[:max(step, 1)])))),
+                        detail="%s: %s" % (desc, bad), case=c))
+    g = torch.Generator().manual_seed(c["seed"])
+    torch.manual_seed(c["seed"])
+    kern = families(torch, gpytorch)[fam](arg, d, ard).to(D)
+    set_lengthscales(torch, kern, 0.7)
+    covar = gpytorch.kernels.MultitaskKernel(kern, num_tasks=2, rank=1).to(D) if mt else kern
+    n = 7
+    x = geometry(torch, geom, n, d, g)
+    xs = torch.cat([torch.rand(3, d, generator=g, dtype=D) * 2 - 1 + (1e5 if geom == "far-offset" else 0.0), x[:1], x[1:2] + 0.05])
+    x, xs = in_domain(torch, dom, x), in_domain(torch, dom, xs)
+    N = len(obs)
+    rows = torch.tensor([p - 1 for p, _ in obs])
+    X = x[rows]
+    Y = torch.randn(N, 2, generator=g, dtype=D)
+    NZ = torch.tensor([LV[l] for _, l in obs], dtype=D)
+    test_noise = torch.full((xs.shape[0],), LV[1], dtype=D)
+    nm = hetero_noise_model(torch, gpytorch, x) if variant == "hetero" else None
+
+    class M(gpytorch.models.ExactGP):
+        def __init__(s_, xx, yy, lk, cv, multi):
+            super().__init__(xx, yy, lk)
+            s_.multi = multi
+            s_.mean_module = gpytorch.means.MultitaskMean(gpytorch.means.ZeroMean(), num_tasks=2) if multi else gpytorch.means.ZeroMean()
+            s_.covar_module = cv
+
+        def forward(s_, xx):
+            if s_.multi:
+                return gpytorch.distributions.MultitaskMultivariateNormal(s_.mean_module(xx), s_.covar_module(xx))
+            return gpytorch.distributions.MultivariateNormal(s_.mean_module(xx), s_.covar_module(xx))
+
+    def targets(a, b, multi):
+        return Y[a:b] if multi else Y[a:b, 0]
+
+    def predict(model):
         model.eval()
-        lik.eval()
+        model.likelihood.eval()
+        with settings.fast_pred_var(fast):
+            o = model(xs)
+            o.covariance_matrix
+        lk = model.likelihood
+        mo = lk(o, noise=test_noise) if fixedkind else lk(o, xs) if variant == "hetero" else lk(o)
+        return o.covariance_matrix.clone(), o.variance.clone(), o.stddev.clone(), mo.covariance_matrix.clone()
+
+    with torch.no_grad():
+        ok, prior = core.guarded(lambda: covar(xs).to_dense())
+    if not ok:
+        rec("chain-raises", "prior: %s" % prior)
+        return res
+    rec("prior", psd_report(torch, prior, "prior covariance"))
+    pscale = float(prior.abs().max())
+    prev_cov = prior
+    model, cur = None, 0
+    for step, (how, m) in enumerate(hist, 1):
+        a, b, cur = cur, cur + m, cur + m
+
+        def apply():
+            if how == "fresh":
+                return M(X[:b], targets(0, b, mt), make_lik(torch, gpytorch, variant, NZ[:b], nm), covar, mt).to(D)
+            if how == "set":
+                if fixedkind:
+                    model.likelihood.noise = NZ[:b].clone()
+                model.set_train_data(X[:b], targets(0, b, mt), strict=False)
+                return model
+            if how == "fantasy":
+                return model.get_fantasy_model(X[a:b], targets(a, b, mt), **(dict(noise=NZ[a:b].clone()) if fixedkind else {}))
+            if how == "listfantasy":
+                # the model at hand as the first member of an IndependentModelList with a companion of another noise structure
+                cvar = "gaussian" if fixedkind else "fixed+learned"
+                comp = M(X[:a], Y[:a, 1], make_lik(torch, gpytorch, cvar, NZ[:a], None), gpytorch.kernels.RBFKernel().to(D), False).to(D)
+                comp.eval()
+                comp.likelihood.eval()
+                with settings.fast_pred_var(fast):
+                    comp(xs)
+                ml = gpytorch.models.IndependentModelList(model, comp)
+                nz = [NZ[a:b].clone() if fixedkind else None, None if fixedkind else NZ[a:b].clone()]
+                return ml.get_fantasy_model([X[a:b], X[a:b]], [targets(a, b, mt), Y[a:b, 1]], noise=nz).models[0]
+            raise core.Machinery("unknown step %r" % how)
         with torch.no_grad():
-            ok, r = core.guarded(lambda: (lambda o, q: (o.covariance_matrix.clone(), o.variance.clone(), o.stddev.clone(), q.covariance_matrix.clone()))(model(xs), lik(model(xs))))
+            ok, model2 = core.guarded(apply)
+            if ok:
+                model = model2
+                ok, r = core.guarded(lambda: predict(model))
+            else:
+                r = model2
+        where = "step %d (%s %d observation(s), %d in total)" % (step, how, m, b)
         if not ok:
-            rec("posterior-raises", "history %s step %d: %s" % (seq, step, r))
+            rec("chain-raises", "%s: %s" % (where, r), step)
             return res
         cov, var, sd, mcov = r
-        hist = "history %s step %d" % (seq[:step], step)
-        bad = psd_report(torch, cov, "posterior covariance (%s)" % hist)
-        rec("posterior", bad)
+        bad = psd_report(torch, cov, "posterior covariance after %s" % where)
+        rec("posterior", bad, step)
         if bad:
             return res
-        rec("reduction", psd_report(torch, prior - cov, "prior - posterior covariance (%s)" % hist, 1e-7, ref=prior.abs().max()))
-        rec("marginal", psd_report(torch, mcov, "marginal covariance (%s)" % hist))
-        scale = max(float(prev_var.max()), 1e-12)
-        inc = float((torch.diagonal(cov) - prev_var).max())
-        rec("variance-monotone", None if inc <= 1e-9 * scale + 1e-12 else "%s: a posterior variance INCREASED by %.3e after adding an observation" % (hist, inc))
+        # differences of covariances: distances of nearly coincident rows carry sqrt(eps) ~ 1e-8 of rounding (r = sqrt(squared
+        # distance)), which kernels with a cusp at r = 0 pass on to the entries: 1e-6 relative to the prior is "up to rounding" here
+        rec("reduction", psd_report(torch, prior - cov, "prior - posterior covariance after %s" % where, DIFF_TOL, ref=pscale), step)
+        rec("step-reduction", psd_report(torch, prev_cov - cov, "cov(before) - cov(after) for %s" % where, DIFF_TOL, ref=pscale), step)
+        rec("marginal", psd_report(torch, mcov, "marginal covariance after %s" % where), step)
+        inc = float((torch.diagonal(cov) - torch.diagonal(prev_cov)).max())
+        rec("variance-monotone", None if inc <= DIFF_TOL * max(pscale, 1e-12) else "%s: a posterior variance INCREASED by %.3e by adding observations" % (where, inc), step)
         mv = settings.min_variance.value(var.dtype)
         rec("variance-floor", None if (float(var.min()) >= mv and torch.isfinite(sd).all() and float((sd - var.sqrt()).abs().max()) <= 1e-12) else
-            "%s: reported variance %.3e below min_variance %.1e or stddev not its square root" % (hist, float(var.min()), mv))
-        prev_var = torch.diagonal(cov).clone()
-    for r in res:
-        if r.get("sample") is None:
-            r.pop("sample", None)
+            "%s: reported variance %.3e below min_variance %.1e or stddev not its square root" % (where, float(var.min()), mv), step)
+        prev_cov = cov
     return res
 
 
@@ -290,67 +541,159 @@ def run(ck):
     torch = core.setup_torch()
     import gpytorch
     rnd = random.Random(ck.seed)
-    ck.rule = ("Gram matrices: every PD kernel x geometry class (spread, exact duplicates, rows 1e-9 apart, clustered at 1e-3) x lengthscale scale (1e-3..1e3) "
-               "on its documented domain; growth histories: every sequence of pool indices (duplicates allowed) up to the bound from Validity.tla walked on a real "
-               "exact GP per kernel: posterior / prior - posterior / marginal PSD, variances non-increasing and >= min_variance; non-trivial = all")
-    ck.assumptions = ["PSD up to rounding: symmetric to 1e-10 relative, lambda_min >= -1e-8 * lambda_max in float64",
-                      "CosineKernel only for d=1, CylindricalKernel inside the unit ball; noise 0.05; 7 pool points",
-                      "numeric sampling in the inputs; exhaustive in kernel x geometry-class x growth-history"]
+    ck.rule = ("kernel lattice (Validity.tla part lattice): every kernel family x every value of its discrete constructor argument x d in 1..5 x ARD / shared "
+               "lengthscale x lengthscale scale x geometry class (spread, exact duplicates, rows 1e-9 apart, clustered at 1e-3, offset 1e5, dense cloud and regular "
+               "grid of ~100 points per support volume) on its documented domain: Gram matrix symmetric PSD; compact-support cells also equal the documented "
+               "function at exact rational radii.  Growth histories (part growth): every sequence of (pool point, own noise level) x every way of adding it in "
+               "chunks of 1..2 (fresh model, set_train_data, get_fantasy_model, IndependentModelList.get_fantasy_model) x noise structure (homoskedastic, fixed, "
+               "fixed + learned, input dependent) up to the bound, walked on real exact GPs: after every step posterior / prior - posterior / "
+               "cov(before) - cov(after) / marginal PSD, variances non-increasing and >= min_variance; non-trivial = all")
+    ck.assumptions = ["PSD up to rounding: symmetric to 1e-10 relative, lambda_min >= -1e-8 * lambda_max in float64; differences of covariances / variances along a history: 1e-6 relative to the prior "
+                      "(test points coincide with training rows; the distance of nearly coincident rows is only accurate to sqrt(eps))",
+                      "CosineKernel only for d=1, CylindricalKernel inside the unit ball, HammingIMQKernel on one-hot sequences, GridInterpolationKernel inside its grid (d <= 3)",
+                      "growth: 7 pool rows, fixed noise levels 0.02 / 0.4, learned second noise 0.25, homoskedastic noise 0.05, lengthscale 0.7; predictions with fast_pred_var off and on",
+                      "DirichletClassificationLikelihood is not walked: ExactGP.get_fantasy_model never passes the `targets` keyword its get_fantasy_likelihood requires",
+                      "numeric sampling in the inputs; exhaustive in family x argument x d x ARD x scale x geometry class and (thorough) in the growth histories; "
+                      "quick: every (noise structure, history shape) with 4 of the 19 kernels, observation sequence / geometry / likelihood class rotating"]
     wd = os.path.join(tlc.BUILD, PID)
-    pools = [([[1, 0], [0, 1], [1, 0], [1, 1], [2, -1]], [[1, 1], [0, 2]], 1), ([[1, 2], [1, 2], [-1, 0], [0, 0], [2, 2]], [[1, 2], [3, 0]], 2)]
     L = 4 if thorough else 3
-    jobs = []
-    for j, (pool, test, s2) in enumerate(pools):
-        mod, cfg = write_mc(wd, "p%d" % j, pool, test, s2, L)
-        jobs.append(((mod, cfg), dict(name=PID + "/growth%d" % j, dump=True, check=False, workers=6, timeout=1500)))
-    rs = tlc.run_many(jobs, parallel=2)
-    hists = set()
-    for j, r in enumerate(rs):
-        ck.add_tlc(r, "Validity growth machine pool %d" % j)
+    pools = [([[1, 0], [0, 1], [1, 0], [1, 1], [2, -1]], [[1, 1], [0, 2]], 1), ([[1, 2], [1, 2], [-1, 0], [0, 0], [2, 2]], [[1, 2], [3, 0]], 2)]
+    chain_pool = ([[1, 0], [1, 1], [0, 1]] if thorough else [[1, 0], [1, 1]], [[1, 1], [0, 2]], 1)
+    scales = (-3, -1, 0, 1, 3) if thorough else (-2, 0, 2)
+    jobs, labels = [], []
+
+    def job(name, label, **kw):
+        mod, cfg = write_mc(wd, name, **kw)
+        jobs.append(((mod, cfg), dict(name=PID + "/" + name, dump=True, check=False, workers=2, timeout=3000, coverage=False)))
+        labels.append(label)
+    # (1) single observations from a 5-row pool, homoskedastic, fresh models (exact)
+    for j, (pool, test, s2) in enumerate(pools if thorough else pools[:1]):
+        job("growth%d" % j, "Validity growth machine pool %d (single points, homoskedastic)" % j, part="growth", pool=pool, test=test, s2=s2, maxn=L,
+            invariants=GROWTH_INV, properties=["VarianceMonotone"])
+    # (2) chunks x noise structures x one step kind per bookkeeping class, exact rationals incl. cov(before) - cov(after)
+    job("chain_exact", "Validity growth machine: noise structures x replace/append steps, exact", part="growth", pool=chain_pool[0], test=chain_pool[1], s2=chain_pool[2],
+        maxn=3, liks=ALL_LIKS if thorough else [k for k in ALL_LIKS if k != "fixed"], hows=EXACT_HOWS, maxchunk=2, invariants=GROWTH_INV + ["StepReductionPSD"], properties=["VarianceMonotone"])
+    # (3) the same machine over every way of adding observations: bookkeeping invariants, generates the histories to replay
+    job("chain_hows", "Validity growth machine: noise structures x all step kinds (histories)", part="growth", pool=chain_pool[0], test=chain_pool[1], s2=chain_pool[2],
+        maxn=3, liks=ALL_LIKS, hows=ALL_HOWS, maxchunk=2, arith=False, modes=("exact", "fast"), invariants=["NoiseIsOwn", "NoiseFloor"])
+    # (4) the kernel lattice
+    job("lattice", "Validity kernel lattice", part="lattice", scales=scales, invariants=["DomainOK", "SupportOK"])
+    # the exact chain run does not generate cases: it runs (single-threaded) next to the other runs and the replay
+    from concurrent.futures import ThreadPoolExecutor
+    bg = ThreadPoolExecutor(max_workers=1)
+    np_ = len(jobs) - 3
+    i_exact, i_hows, i_lat = np_, np_ + 1, np_ + 2
+    (a_exact, k_exact) = jobs[i_exact]
+    fut_exact = bg.submit(tlc.run, *a_exact, **dict(k_exact, workers=1))
+    front = [i for i in range(len(jobs)) if i != i_exact]
+    rs_front = tlc.run_many([jobs[i] for i in front], parallel=2)
+    rs = [None] * len(jobs)
+    for i, r in zip(front, rs_front):
+        rs[i] = r
+
+    def account(i):
+        r, label = rs[i], labels[i]
+        ck.add_tlc(r, label)
         if r.violation:
-            ck.model_drift("Validity.tla violates %s (the formulas themselves!)" % r.violation["name"])
+            ck.model_drift("Validity.tla violates %s (%s: the formulas themselves!)" % (r.violation["name"], label))
         elif r.rc != 0:
-            raise tlc.TLCError("TLC failed on Validity:\n" + r.stdout[-1500:])
+            raise tlc.TLCError("TLC failed on Validity (%s):\n%s" % (label, r.stdout[-1500:]))
+    for i in front:
+        account(i)
+    import time
+    t_front = time.time() - ck.t0
+    # ---- histories ----
+    hists = []        # (lik, obs [[p, l]..], hist [[how, m]..])
+    for r in rs[:np_]:
         for st in r.states():
-            if len(st["train"]) == L:
-                hists.add(tuple(st["train"]))
-    hists = sorted(hists)
-    if not hists:
+            if len(st["obs"]) == L:
+                hists.append(("homo", "exact", [[o["p"], o["l"]] for o in st["obs"]], [[h["how"], h["m"]] for h in st["hist"]]))
+    single = sorted(set((a, md, tuple(map(tuple, b)), tuple(map(tuple, c))) for a, md, b, c in hists))
+    chains = sorted(set((st["lik"], st["mode"], tuple((o["p"], o["l"]) for o in st["obs"]), tuple((h["how"], h["m"]) for h in st["hist"]))
+                        for st in rs[i_hows].states() if len(st["obs"]) == 3))
+    if not single or not chains:
         ck.vacuous("no growth histories generated")
-    ks = kernels(torch, gpytorch, 1)
+    seen_hows = set(h for _, _, _, hs in chains for h, _ in hs)
+    seen_liks = set(lk for lk, _, _, _ in chains)
+    if seen_hows != set(ALL_HOWS) or seen_liks != set(ALL_LIKS) or not any(m == 2 for _, _, _, hs in chains for _, m in hs) or set(md for _, md, _, _ in chains) != {"exact", "fast"}:
+        ck.vacuous("growth machine did not take every step kind / noise structure / chunk size: %s %s" % (sorted(seen_hows), sorted(seen_liks)))
+    # ---- lattice cells ----
+    cells = []
+    for st in rs[i_lat].states():
+        c, o = st["c"], st["out"]
+        if not o["psd"]:
+            raise core.Machinery("the lattice only holds cells that are PSD on their documented domain")
+        cells.append(dict(what="gram", fam=c["fam"], arg=c["arg"], d=c["d"], ard=bool(c["ard"]), geom=c["geom"], ls=c["ls"], dom=c["dom"], n=100,
+                          j=o["j"], phi=[list(v) for v in o["phi"]], radii=[[0, 1], [1, 4], [1, 2], [3, 4], [1, 1], [5, 4]]))
+    fams = families(torch, gpytorch)
+    if not cells or set(c["fam"] for c in cells) != set(fams):
+        ck.vacuous("kernel lattice of the spec and the builders of the check differ: %s" % sorted(set(c["fam"] for c in cells) ^ set(fams)))
+    cells.sort(key=lambda c: (c["fam"], c["arg"], c["d"], c["ard"], c["geom"], c["ls"]))
+    configs = {}
+    for i, c in enumerate(cells):
+        c["seed"] = ck.seed * 100000 + i
+        c["kseed"] = ck.seed * 1000 + (c["arg"] * 31 + c["d"] * 7 + int(c["ard"])) % 97
+        configs.setdefault((c["fam"], c["arg"], c["d"], c["ard"]), []).append(c)
     cases = []
-    geoms = ["spread", "duplicates", "near-coincident", "clustered", "far-offset"]
-    for kname, (_, dom) in ks.items():
-        for geom in geoms:
-            if geom == "far-offset" and kname not in STATIONARY:
-                continue
-            for ls in ((1e-3, 1e-1, 1.0, 1e1, 1e3) if thorough else (1e-2, 1.0, 1e2)):
-                for d in ((1,) if dom == "d1" else (1, 3)):
-                    cases.append(dict(what="gram", kernel=kname, geometry=geom, lengthscale=ls, d=d, seed=ck.seed * 100 + len(cases)))
-    gk = [k for k in ks if k not in ("constant",)]
-    for kname in gk:
-        dom = ks[kname][1]
-        sel = hists if thorough else [h for i, h in enumerate(hists) if i % 9 == (len(kname) % 9)]
-        for h in sel:
-            for geom in (geoms if thorough else ["duplicates", "near-coincident", "far-offset"]):
-                if geom == "far-offset" and kname not in STATIONARY:
-                    continue
-                cases.append(dict(what="growth", kernel=kname, geometry=geom, lengthscale=0.7, d=1 if dom == "d1" else 2, history=list(h), seed=ck.seed * 100 + 7))
+    # ---- growth cases ----
+    geoms = ["duplicates", "near-coincident", "far-offset", "spread", "clustered"]
+
+    def growth_case(k, lk, md, obs, hs, i):
+        fam, arg, ard = GROWTH_KERNELS[k]
+        if fam in NO_FANTASY and any(h in ("fantasy", "listfantasy") for h, _ in hs):
+            fam, arg, ard = GROWTH_KERNELS[(k + 1) % len(GROWTH_KERNELS)]
+        gl = [g for g in geoms if g != "far-offset" or fam in STATIONARY]
+        vs = VARIANTS[lk]
+        return dict(what="chain", kernel=[fam, arg, ard], geometry=gl[i % len(gl)], d=1 if DOMAIN.get(fam) == "d1" else 2, lik=lk, variant=vs[(i // 3) % len(vs)], mode=md,
+                    obs=[list(o) for o in obs], hist=[list(h) for h in hs], seed=ck.seed * 100 + 7 + (i % 5))
+    nk = len(GROWTH_KERNELS)
+    # single-point histories: thorough = every history with 6 of the kernels, quick = every 9th history per kernel
+    for k in range(nk):
+        for i, (lk, md, obs, hs) in enumerate(single):
+            if (thorough and (i + k) % 3 == 0) or (not thorough and i % 9 == k % 9):
+                cases.append(growth_case(k, lk, md, obs, hs, i + k))
+    # chain histories: group by (noise structure, history shape); quick: every group with 4 kernels, the observation sequence
+    # rotating; thorough: every history (observation sequence x prediction mode) once, the kernel rotating (every group meets every kernel)
+    groups = {}
+    for lk, md, obs, hs in chains:
+        groups.setdefault((lk, hs), []).append((md, obs))
+    for gi, ((lk, hs), plans) in enumerate(sorted(groups.items())):
+        if thorough:
+            # every observation sequence once, the prediction mode alternating with it
+            for pi, obs in enumerate(sorted(set(o for _, o in plans))):
+                cases.append(growth_case((gi + pi) % nk, lk, "exact", obs, hs, gi + pi))
+                cases.append(growth_case((gi + pi + 7) % nk, lk, "fast", obs, hs, gi + pi + 1))
+        else:
+            for t in range(4):
+                k = (gi + 5 * t) % nk
+                md, obs = plans[(gi * 7 + k * 3) % len(plans)]
+                cases.append(growth_case(k, lk, md, obs, hs, gi + k))
     rnd.shuffle(cases)
-    items = [dict(cases=cases[i:i + 12]) for i in range(0, len(cases), 12)]
-    results = core.pmap(_worker, items, chunksize=1)
+    items = [dict(cases=cases[i:i + 8]) for i in range(0, len(cases), 8)] + [dict(cases=v) for v in configs.values()]
+    rnd.shuffle(items)
+    results = core.pmap(_worker, items, procs=max(1, PROCS - 1), chunksize=1)
+    t_replay = time.time() - ck.t0
+    rs[i_exact] = fut_exact.result()
+    bg.shutdown()
+    account(i_exact)
+    exact_leaves = sum(1 for st in rs[i_exact].states() if len(st["obs"]) == 3)
+    if not exact_leaves:
+        ck.vacuous("the exact chain run reached no complete history")
     results += noise_floor_cases(torch, gpytorch)
     results += variational_cases(torch, gpytorch, ck.seed, thorough)
     results += variance_floor_cases(torch, gpytorch)
     ck.absorb(results)
-    ck.section("replay", gram_cases=sum(1 for c in cases if c["what"] == "gram"), growth_cases=sum(1 for c in cases if c["what"] == "growth"), histories=len(hists), comparisons=len(results))
+    nchain = sum(1 for c in cases if c["what"] == "chain")
+    ck.section("timing", tlc_front_s=round(t_front, 1), replay_done_s=round(t_replay, 1), exact_run_s=round(rs[i_exact].wall_s, 1))
+    ck.section("replay", gram_cases=len(cells), growth_cases=nchain, growth_cases_fast_pred_var=sum(1 for c in cases if c.get("mode") == "fast"), single_point_histories=len(single), chain_histories=len(chains),
+               history_shapes=len(groups), exact_chain_leaves=exact_leaves, comparisons=len(results))
 
 
 def replay(rep):
     torch = core.setup_torch()
     import gpytorch
     c = rep["case"]
-    if c.get("what") in ("gram", "growth"):
+    if c.get("what") in ("gram", "chain"):
         bad = [r for r in run_case(torch, gpytorch, c) if not r["ok"]]
     elif c.get("what") == "floor":
         bad = [r for r in variance_floor_cases(torch, gpytorch) if not r["ok"]]
